@@ -439,7 +439,24 @@ impl Check for C03Check {
                     }
                 }
             }
-            cx.stats.exhaustive_parts.insert("zero padding of 18 lengths (1..70000) x 17 finals x 6 digits; parameter lists of 14 lengths (16..3000) x 17 finals x 5 values".into());
+            // a long list that ends WITHOUT dispatch ($+final, CAN, SUB), then text, then another
+            // long list: nothing of the first may surface in the second
+            for n1 in [15usize, 16, 17, 18, 33, 64, 65, 300] {
+                for n2 in [1usize, 15, 16, 17, 18, 40, 300] {
+                    for (ei, end) in ["$r", "$p", "\x18", "\x1a", "m"].iter().enumerate() {
+                        k += 1;
+                        if !cx.mine(k) {
+                            continue;
+                        }
+                        let l1: Vec<String> = (0..n1).map(|i| (101 + i).to_string()).collect();
+                        let l2: Vec<String> = (0..n2).map(|i| (1 + i % 9).to_string()).collect();
+                        for f in ["m", "H", "h"] {
+                            c03_run(cx, &format!("\x1b[{}{}ok\x1b7\x1b[{}{}", l1.join(";"), end, l2.join(";"), f), ei % 2 == 0, "long-pair");
+                        }
+                    }
+                }
+            }
+            cx.stats.exhaustive_parts.insert("zero padding of 18 lengths (1..70000) x 17 finals x 6 digits; parameter lists of 14 lengths (16..3000) x 17 finals x 5 values; pairs 'list of 15..300 parameters ended by $x / CAN / SUB / m, text, list of 1..300 parameters'".into());
         }
         // two recognisers alive on one thread, fed alternately chunk by chunk (two panes of one
         // program): each must produce the events of its own input
@@ -1004,6 +1021,49 @@ impl Check for C19Check {
             if complete {
                 cx.stats.count("unicode_sweeps_completed", 1);
                 cx.stats.exhaustive_parts.insert("every Unicode scalar value (except BEL, ST, ESC, backslash) inside an OSC 2 payload, bare and as the partner of an ESC".into());
+            }
+        }
+        // 8-bit mode: the payload is exactly the characters fed, also when these Latin-1
+        // characters happen to spell well-formed UTF-8
+        if cx.begin_group("osc in 8-bit mode") {
+            let payloads = ["\u{c3}\u{a9}", "caf\u{c3}\u{a9}", "\u{e2}\u{82}\u{ac}", "\u{f0}\u{9f}\u{98}\u{80}", "\u{e9}", "\u{c3}", "a\u{ff}b", "\u{ef}\u{bb}\u{bf}t"];
+            let mut k = 0u64;
+            for p in payloads {
+                for code in ['0', '1', '2'] {
+                    for term in ["\x07", "\x1b\\"] {
+                        for pk in [PK::Chars, PK::Bytes] {
+                            k += 1;
+                            if !cx.mine(k) {
+                                continue;
+                            }
+                            let mut sys = Sys::new(12, 2, pk);
+                            sys.set_recording(false, false);
+                            let _ = sys.try_apply(&Op::Charset("@".into()));
+                            let seq = format!("\x1b]{};{}{}", code, p, term);
+                            // through ByteParser each character is one byte of equal value
+                            let op = if pk == PK::Bytes { Op::FeedBytes(seq.chars().map(|c| c as u32 as u8).collect()) } else { Op::Feed(seq.clone()) };
+                            let ok = sys.try_apply(&op).is_ok();
+                            let post = sys.snap();
+                            cx.stats.clause("osc-judged");
+                            cx.stats.evaluations += 1;
+                            let want_t = if code != '1' { p } else { "" };
+                            let want_i = if code != '2' { p } else { "" };
+                            if !ok || post.title != want_t || post.icon != want_i {
+                                let mut case = Case::new("C19", "osc8", 12, 2, pk);
+                                case.ops = vec![Op::Charset("@".into()), op];
+                                case.aux = json!({"after": "8-bit", "code": code.to_string(), "payload": p});
+                                cx.violation(Viol {
+                                    prop: "C19".into(),
+                                    clause: "after-sequence".into(),
+                                    op: "osc".into(),
+                                    bucket: format!("8bit|code={}", code),
+                                    detail: format!("8-bit mode, {:?} via {:?}: title {:?} / icon {:?}, expected {:?} / {:?}", seq, pk, post.title, post.icon, want_t, want_i),
+                                    case,
+                                });
+                            }
+                        }
+                    }
+                }
             }
         }
         // all chains of four OSC strings over codes {0,1,2} x payloads {A, B, empty} on one parser:
@@ -1776,6 +1836,40 @@ impl Check for C02Check {
             c02_stream(cx, 10, 3, Mode::BytesUtf8, b"abcdef", true, "witness");
             c02_stream(cx, 10, 3, Mode::BytesUtf8, b"\x1b[2;3Hx", true, "witness");
             c02_stream(cx, 10, 3, Mode::Chars, "\u{1b}[2;3Hxé日".as_bytes(), true, "witness");
+        }
+        // a pure-text chunk of 16 characters or more (what a bulk path would take) after the cursor
+        // was put in a special place: below / inside / above a scrolling region, near the right
+        // edge, with and without autowrap and insert mode; whole vs cut vs one unit at a time
+        if cx.begin_group("long text chunks from special places") {
+            let mut k = 0u64;
+            for (w, l) in [(8u32, 6u32), (20, 8)] {
+                for bottom in 2..l {
+                    for y in 1..=l {
+                        for x in [1, w / 2, w - 1, w] {
+                            for n in [16usize, 17, 30] {
+                                k += 1;
+                                if !cx.mine(k) {
+                                    continue;
+                                }
+                                let modes = ["", "\x1b[?7l", "\x1b[4h", "\x1b[?6h"][(k % 4) as usize];
+                                let text: String = (0..n).map(|i| (b'a' + (i % 26) as u8) as char).collect();
+                                let stream = format!("\x1b[1;{}r{}\x1b[{};{}H\x1b[31m{}", bottom, modes, y, x, text);
+                                let data = stream.as_bytes();
+                                let at = data.len() - n;
+                                for mode in [Mode::Chars, Mode::BytesUtf8] {
+                                    let whole = run_stream(w, l, mode, &[data.to_vec()]);
+                                    // the text as one chunk of its own, as two, and unit by unit
+                                    c02_pair(cx, w, l, mode, data, &[at], &whole, "long-text");
+                                    c02_pair(cx, w, l, mode, data, &[at, at + n / 2], &whole, "long-text");
+                                    let units: Vec<usize> = (1..data.len()).collect();
+                                    c02_pair(cx, w, l, mode, data, &units, &whole, "long-text");
+                                }
+                            }
+                        }
+                    }
+                }
+            }
+            cx.stats.exhaustive_parts.insert("text chunks of 16 / 17 / 30 characters after every (region bottom, cursor row, 4 cursor columns) on 8x6 and 20x8, with DECAWM off / IRM / DECOM rotated: whole vs own chunk vs two chunks vs unit at a time".into());
         }
         // a run of single-cell characters that contains a pair which is narrower as a string than
         // character by character (ligating Arabic, Lisu tones, flags ...), ending just before, at
